@@ -533,7 +533,8 @@ class Facts:
 
     def crate_fns(self):
         """Bodies written in this crate's own source (macro-expanded lazy_static plumbing excluded)."""
-        return [f for f in self.all_fns if not f.in_macro_crate]
+        # unit-test modules (only present in the `test` configuration) are not part of the library's behaviour
+        return [f for f in self.all_fns if not f.in_macro_crate and not (self.is_test and '::test::' in f.name)]
 
     def children(self, fn):
         return [f for f in self.all_fns if f.parent == fn.name and f.is_closure]
